@@ -6,6 +6,8 @@ def explore(run, lean):
     quick = run.tier == "quick"
     text_corr.explore_stmts(run, 250 if quick else 5000)
     run.extra["rule"] = ("statements generated from a grammar (reads inside arithmetic / comparison / call / subscript expressions, assignments and augmented assignments to the attribute, to other variables and to dict items, if-statements, trailing comments), rendered to a real module, executed, lock count read afterwards and compared with the Lean leak function; documented forms first")
+    ROUND6_RULE = '; the same statements laid out over two physical lines (backslash continuation / break inside brackets)'
+    run.extra["rule"] += ROUND6_RULE
 
 
 def replay(case):
